@@ -289,12 +289,40 @@ func GuardT(timeout time.Duration, f func() error) (err error) {
 			return e
 		case <-time.After(timeout):
 		}
+		if os.Getenv("VERIF_DEBUG") != "" {
+			var sb strings.Builder
+			for _, g := range Goroutines() {
+				if strings.Contains(g.Stack, "sim.GuardT") {
+					sb.WriteString(g.Stack + "\n\n")
+				}
+			}
+			os.WriteFile(fmt.Sprintf("/tmp/guard-expired-%d-%d.txt", os.Getpid(), period), []byte(sb.String()), 0o644)
+		}
 		if ok, _ := ConfirmStuck(3, 300*time.Millisecond); ok {
 			return ErrStuck
 		}
 		// slow, not parked (machine load, collector pressure): give it more time
 	}
 	return ErrStuck
+}
+
+// ParkedList is VerifParkedList behind the watchdog (the hook takes the orphan buffer's lock).
+func ParkedList(b *accountant.AccountingBook) []accountant.VerifParked {
+	var out []accountant.VerifParked
+	if err := GuardT(CallTimeout, func() error { out = b.VerifParkedList(); return nil }); err != nil {
+		wedge("VerifParkedList")
+	}
+	return out
+}
+
+// RawSnapshot is VerifSnapshot behind the watchdog (the hook takes the ledger read lock).
+func RawSnapshot(b *accountant.AccountingBook) (accountant.VerifSnapshot, error) {
+	var out accountant.VerifSnapshot
+	var e error
+	if err := GuardT(CallTimeout, func() error { out, e = b.VerifSnapshot(); return nil }); err != nil {
+		wedge("VerifSnapshot")
+	}
+	return out, e
 }
 
 func IsPanic(err error) bool { return err != nil && strings.HasPrefix(err.Error(), "PANIC:") }
